@@ -56,8 +56,16 @@ func nodeSide(cert []byte, node, server pair) *types.NodeCredentials {
 	}
 }
 
+// recordID gives the Id field of a server-side record built by serverSide. The
+// library stores a record under the key ID of its certificate key; an
+// application may keep records under ids of its own, or hand over a record whose
+// id was never filled in. The id is not key material: it has no bearing on the
+// secret or the key ID the record derives.
+var recordID = func(cert []byte) string { return "" }
+
 func serverSide(cert []byte, node, server pair) *types.NodeInformation {
 	return &types.NodeInformation{
+		Id:                       recordID(cert),
 		CertificatePublicKeyPkix: cert, ServerEncryptionPrivateKeyBytes: server.priv, ServerEncryptionPrivateKeyType: types.KEYTYPE_X25519,
 		EncryptionPublicKeyBytes: node.pub, EncryptionPublicKeyType: types.KEYTYPE_X25519,
 	}
@@ -168,7 +176,23 @@ func TestProp_KeyCases(t *testing.T) {
 		if sameID {
 			s.sameKeyID()
 		}
+		idField := rapid.SampledFrom([]string{"empty", "key-id", "key-id", "application-chosen", "key-id-of-another-record"}).Draw(t, "serverRecordIdField")
+		otherKeyID, _ := nodeenrollment.KeyIdFromPkix(newCertPkix())
+		recordID = func(cert []byte) string {
+			switch idField {
+			case "key-id":
+				id, _ := nodeenrollment.KeyIdFromPkix(cert)
+				return id
+			case "application-chosen":
+				return "node-record-7" // every record of this case shares it
+			case "key-id-of-another-record":
+				return otherKeyID
+			}
+			return ""
+		}
+		defer func() { recordID = func([]byte) string { return "" } }()
 		nSide, sSide := s.sides(t)
+		nSide.Id = rapid.SampledFrom([]string{"", "current", "current", "next"}).Draw(t, "nodeCredentialsIdField")
 		fromNode := rapid.Bool().Draw(t, "senderIsNode")
 		useOld := withPrev && rapid.Bool().Draw(t, "senderUsesPreviousPair")
 
@@ -204,7 +228,7 @@ func TestProp_KeyCases(t *testing.T) {
 		}
 		desc := func(variant string) func() any {
 			return func() any {
-				return map[string]any{"message": kind, "sender_is_node": fromNode, "receiver_has_previous": withPrev, "previous_shares_key_id": sameID, "sender_uses_previous_pair": useOld, "receiver_variant": variant, "ciphertext_len": len(ct)}
+				return map[string]any{"message": kind, "sender_is_node": fromNode, "receiver_has_previous": withPrev, "previous_shares_key_id": sameID, "sender_uses_previous_pair": useOld, "receiver_variant": variant, "ciphertext_len": len(ct), "server_record_id_field": idField}
 			}
 		}
 		shape := fmt.Sprintf("%s|%v|%v|%v|%v", kind, fromNode, withPrev, useOld, sameID)
